@@ -16,7 +16,12 @@ echo "files touched: $(git -C "$wt" diff --stat | tail -1)"
 stage; echo "demo with patch:    exit $(run_demo)"; tail -3 /var/tmp/${lane}_seed_demo.log | cut -c1-300
 mkdir -p /var/tmp/${lane}_seedhome && rm -rf /var/tmp/${lane}_seedhome/.streamflow
 # test_cwl_loop shares one sqlite file per HOME: run it serially (it is flaky under xdist on a loaded machine, with or without a patch)
-(cd "$wt" && HOME=/var/tmp/${lane}_seedhome PYTHONPATH="$wt" timeout 2400 /venv/bin/python -m pytest -q -p no:cacheprovider --timeout=900 --junitxml=/var/tmp/${lane}_seed_junit.xml -n 6 $(grep -v test_cwl_loop /verif/tools/stable_ids.txt) >/var/tmp/${lane}_seed_tests.log 2>&1)
+# tests/test_recovery.py occasionally hangs for good (cachebox/GC dead-lock, also on the original commit): bound the run and retry
+for attempt in 1 2 3; do
+  rm -f /var/tmp/${lane}_seed_junit.xml
+  (cd "$wt" && HOME=/var/tmp/${lane}_seedhome PYTHONPATH="$wt" timeout 420 /venv/bin/python -m pytest -q -p no:cacheprovider --timeout=300 --junitxml=/var/tmp/${lane}_seed_junit.xml -n 6 $(grep -v test_cwl_loop /verif/tools/stable_ids.txt) >/var/tmp/${lane}_seed_tests.log 2>&1)
+  [ -s /var/tmp/${lane}_seed_junit.xml ] && break
+done
 (cd "$wt" && HOME=/var/tmp/${lane}_seedhome PYTHONPATH="$wt" timeout 2400 /venv/bin/python -m pytest -q -p no:cacheprovider --timeout=900 --junitxml=/var/tmp/${lane}_seed_junit2.xml -n 0 $(grep test_cwl_loop /verif/tools/stable_ids.txt) >/var/tmp/${lane}_seed_tests2.log 2>&1)
 python3 - <<PY
 import json, xml.etree.ElementTree as ET
